@@ -668,3 +668,36 @@ Proof.
   split; [vm_compute; reflexivity|]. split; [vm_compute; reflexivity|].
   rewrite capture_witness_fun, capture_witness_core. intros H. discriminate H.
 Qed.
+
+(* ====================================================================================
+   Part 4: the witness of the second defect class (mistyped goto target): the translated program
+   is not closed - a lifted definition is called with a covariable that is not in scope
+   ==================================================================================== *)
+(* name-level closedness of a Core program: every free identifier of a definition body is a parameter *)
+Definition cdef_closed (d : cdef) : bool :=
+  forallb (fun b => existsb (cident_eqb (cbvar b)) (cvars (cdctx d))) (tfv_stmt (cdbody d) []).
+Definition cprog_closed (c : cprog) : bool := forallb cdef_closed (cpdefs c).
+
+Lemma goto_witness_fun : run_fun 200 goto_witness [] = ([(true, 4%Z)], OExit 0%Z).
+Proof. vm_compute. reflexivity. Qed.
+Lemma goto_witness_core :
+  run_core 200 (compiled_or_empty goto_witness) [] = ([], OStuck "covar-unbound").
+Proof. vm_compute. reflexivity. Qed.
+
+Theorem fun2core_goto_unbound_refuted_lemma :
+  exists (p : fcprog) (args : list Z) (c : cprog) (n : nat),
+    annotated_fcprog p = true /\ effect_sequenced p = true /\ shadowing_risk_prog p = false /\
+    goto_type_mismatch_prog p = true /\
+    compile_prog p = Ok c /\
+    cprog_closed c = false /\
+    defined (run_fun n p args) = true /\
+    run_fun n p args <> run_core n c args.
+Proof.
+  exists goto_witness, [], (compiled_or_empty goto_witness), 200%nat.
+  do 7 (split; [vm_compute; reflexivity|]).
+  rewrite goto_witness_fun, goto_witness_core. intros H. discriminate H.
+Qed.
+
+(* sanity: the capture witness's translation IS closed (that defect is a capture, not an escape) *)
+Lemma capture_witness_closed : cprog_closed (compiled_or_empty capture_witness) = true.
+Proof. vm_compute. reflexivity. Qed.
